@@ -30,7 +30,8 @@ def matrix_cases(res, cases):
         try:
             m, keys = lsm.astmRainflowCountingMatrix([float(x) for x in h], 1.0)
         except Exception as e:  # noqa
-            res.disagreements.append({'what': 'astmRainflowCountingMatrix raised', 'input': h, 'impl': repr(e)})
+            res.failures.append({'signature': f'C01:matrix:raises:{type(e).__name__}:{enc_list(h)}', 'clause': 'astmRainflowCountingMatrix raised on a valid history: ' + repr(e)[:100],
+                                 'api': 'astmRainflowCountingMatrix', 'input': h, 'scale': 0})
             continue
         ks = [int(round(float(k.replace(',', '')))) for k in keys]
         # integer data digitised at resolution 1 is itself: entry (i,j) must be the from-to total
